@@ -51,7 +51,7 @@ def _exc_fields():
     from . import types as T
 
     se = dict(schema=T.Ref(None, name=T.Opt(T.Any)), data=T.Any, failure_cases=T.Any, check=T.Any, check_index=T.Any, check_output=T.Any,
-              parser=T.Any, parser_index=T.Any, parser_output=T.Any, reason_code=T.Any, column_name=T.Any)
+              parser=T.Any, parser_index=T.Any, parser_output=T.Any, reason_code=T.Lazy(lambda n: MappedReason(name=n)), column_name=T.Any)
     return {"SchemaError": se,
             "SchemaErrors": dict(schema=T.Any, schema_errors=T.ListOf(T.Lazy(lambda n: cur().ghost["interp"].make_exc(_pandera_errors().SchemaError))), data=T.Any,
                                  failure_cases=T.Any, message=T.Any, error_counts=T.Any),
@@ -62,6 +62,11 @@ def _pandera_errors():
     import pandera.errors as E
 
     return E
+
+
+class MappedReason(SAny):
+    """the reason code of a SchemaError raised by pandera: some member of SchemaErrorReason that the scope map knows
+    (invariant of SchemaError objects; established by the structural obligation on the construction sites)"""
 
 
 class _LazyExcFields(dict):
@@ -685,11 +690,11 @@ class Interp:
         raise Unsupported("del on live object")
 
     # ------------------------------------------------------------------ truthiness
-    def truth(self, v) -> bool:
+    def truth(self, v, label="if") -> bool:
         if isinstance(v, bool):
             return v
         if isinstance(v, Sym):
-            return cur().decide(v.truth(), "if")
+            return cur().decide(v.truth(), label)
         if isinstance(v, Obj):
             if v.cls is not None:
                 b = _find_in_mro(v.cls, "__bool__")
@@ -846,6 +851,8 @@ class Interp:
             self.note_container_write(c)
             list.__setitem__(c, k, v)
             return
+        if c is None:
+            self.raise_py(TypeError, "'NoneType' object does not support item assignment")
         raise Unsupported(f"setitem on {type(c).__name__}")
 
     def note_container_write(self, c):
@@ -862,7 +869,7 @@ class Interp:
         return getattr(list, op)(lst, *args)
 
     def s_If(self, s, fr):
-        if self.truth(self.eval(s.test, fr)):
+        if self.truth(self.eval(s.test, fr), f"if@{fr.func.__name__}:{s.lineno}"):
             self.exec_block(s.body, fr)
         else:
             self.exec_block(s.orelse, fr)
@@ -1268,7 +1275,7 @@ class Interp:
         return clo
 
     def e_IfExp(self, e, fr):
-        if self.truth(self.eval(e.test, fr)):
+        if self.truth(self.eval(e.test, fr), f"ifexp@{fr.func.__name__}:{e.lineno}"):
             return self.eval(e.body, fr)
         return self.eval(e.orelse, fr)
 
@@ -1277,13 +1284,13 @@ class Interp:
             v = True
             for x in e.values:
                 v = self.eval(x, fr)
-                if not self.truth(v):
+                if not self.truth(v, f"and@{fr.func.__name__}:{e.lineno}"):
                     return v
             return v
         v = False
         for x in e.values:
             v = self.eval(x, fr)
-            if self.truth(v):
+            if self.truth(v, f"or@{fr.func.__name__}:{e.lineno}"):
                 return v
         return v
 
